@@ -275,6 +275,9 @@ struct World {
 
 struct SubState {
     id: Uuid,
+    conn: u64,
+    open: bool,
+    wrong_conn: Option<u64>,          // a message for this subscription arrived on another connection
     received: Vec<(i64, BytesFrame)>, // cursor, event
 }
 
@@ -528,7 +531,8 @@ async fn run_history(node: &Node, root: &Path, h: &Value, idx: usize, v: &Varian
     if let Err(e) = node.cluster.ask(ResetCluster { database: db.clone() }).await {
         panic!("ResetCluster failed: {e}");
     }
-    let mut c = Client::connect(if strict { node.port_strict } else { node.port_lax }).await;
+    let port = if strict { node.port_strict } else { node.port_lax };
+    let mut clients: BTreeMap<u64, Client> = BTreeMap::new();
     let mut tx_ids: HashMap<u64, String> = HashMap::new();
     let lower = idx % 3 == 1;
     macro_rules! fail {
@@ -542,6 +546,11 @@ async fn run_history(node: &Node, root: &Path, h: &Value, idx: usize, v: &Varian
         let cmdname = st["cmd"].as_str().unwrap();
         rep.eval(1);
         let res = &st["res"];
+        let cn = st.get("conn").and_then(|c| c.as_u64()).unwrap_or(1);
+        if !clients.contains_key(&cn) {
+            clients.insert(cn, Client::connect(port).await);
+        }
+        let c = clients.get_mut(&cn).unwrap();
         if std::env::var("VERIF_TRACE").is_ok() {
             eprintln!("step {} {}", si + 1, cmdname);
         }
@@ -938,7 +947,7 @@ async fn run_history(node: &Node, root: &Path, h: &Value, idx: usize, v: &Varian
                     Some(id) => id,
                     None => fail!(si, format!("c22:subscribe-reply:{cmdname}"), "step {}: {:?} answered {}", si + 1, words, show(&reply)),
                 };
-                w.subs.push(SubState { id, received: vec![] });
+                w.subs.push(SubState { id, conn: cn, open: true, wrong_conn: None, received: vec![] });
             }
             "EACK" => {
                 let i = st["sub"].as_u64().unwrap() as usize - 1;
@@ -953,6 +962,47 @@ async fn run_history(node: &Node, root: &Path, h: &Value, idx: usize, v: &Varian
                     fail!(si, "c22:eack", "step {}: EACK {id} {} answered {}", si + 1, upto - 1, show(&reply));
                 }
             }
+            "EACK_FOREIGN" => {
+                let i = st["sub"].as_u64().unwrap() as usize - 1;
+                let id = w.subs[i].id.to_string();
+                let reply = match c.call(&cmd(&["EACK", &id, "0"])).await {
+                    Ok(f) => f,
+                    Err(e) => fail!(si, "c22:connection-lost:EACK", "step {} EACK of a foreign subscription: {e}", si + 1),
+                };
+                rep.class("EACK:foreign");
+                if is_error(&reply).is_none() {
+                    fail!(si, "c22:eack:foreign-accepted", "step {}: EACK {id} 0 on connection {cn} (the subscription belongs to connection {}, open: {}) answered {}", si + 1, w.subs[i].conn, w.subs[i].open, show(&reply));
+                }
+            }
+            "RECONNECT" => {
+                rep.class("RECONNECT");
+                clients.remove(&cn); // closes the socket
+                for s in w.subs.iter_mut().filter(|s| s.conn == cn) {
+                    s.open = false;
+                }
+                clients.insert(cn, Client::connect(port).await);
+            }
+            "HELLO" => {
+                let reply = match c.call(&cmd(&["HELLO", "3"])).await {
+                    Ok(f) => f,
+                    Err(e) => fail!(si, "c22:connection-lost:HELLO", "step {} HELLO: {e}", si + 1),
+                };
+                rep.class("HELLO");
+                let np = field(&reply, "num_partitions").and_then(num);
+                if np != res["num_partitions"].as_i64() || field(&reply, "server").and_then(text).as_deref() != res["server"].as_str() {
+                    fail!(si, "c22:hello", "step {}: HELLO 3 answered {}", si + 1, show(&reply));
+                }
+            }
+            "PING" => {
+                let reply = match c.call(&cmd(&[if lower { "ping" } else { "PING" }])).await {
+                    Ok(f) => f,
+                    Err(e) => fail!(si, "c22:connection-lost:PING", "step {} PING: {e}", si + 1),
+                };
+                rep.class("PING");
+                if text(&reply).as_deref() != res.as_str() {
+                    fail!(si, "c22:ping", "step {}: PING answered {}", si + 1, show(&reply));
+                }
+            }
             other => panic!("unknown model command {other}"),
         }
 
@@ -963,6 +1013,9 @@ async fn run_history(node: &Node, root: &Path, h: &Value, idx: usize, v: &Varian
             if i >= w.subs.len() {
                 break;
             }
+            if !w.subs[i].open {
+                continue; // its connection was closed
+            }
             // per unit (partition, or key and stream) the owed events as (partition, sequence), in the unit's order
             let due: Vec<Vec<(i64, i64)>> = sm["due"].as_array().unwrap().iter().map(|u| u.as_array().unwrap().iter().map(|e| (e[0].as_i64().unwrap(), e[1].as_i64().unwrap())).collect()).collect();
             let total: usize = due.iter().map(|d| d.len()).sum();
@@ -971,7 +1024,7 @@ async fn run_history(node: &Node, root: &Path, h: &Value, idx: usize, v: &Varian
             // wait for the owed deliveries
             let deadline = tokio::time::Instant::now() + REPLY_TIMEOUT;
             loop {
-                drain_pushes(&mut c, &mut w);
+                drain_pushes(&mut clients, &mut w);
                 if w.subs[i].received.len() >= expect {
                     break;
                 }
@@ -987,26 +1040,31 @@ async fn run_history(node: &Node, root: &Path, h: &Value, idx: usize, v: &Varian
             if last {
                 // nothing beyond what is owed may follow
                 tokio::time::sleep(Duration::from_millis(250)).await;
-                drain_pushes(&mut c, &mut w);
+                drain_pushes(&mut clients, &mut w);
+            }
+            if let Some(other) = w.subs[i].wrong_conn {
+                fail!(si, format!("c22:subscription:wrong-connection:{}", st_sub_kind(steps, i)), "after step {}: a message of subscription {} (connection {}) arrived on connection {other}", si + 1, i + 1, w.subs[i].conn);
             }
             if let Err((kind, e)) = check_sub(&w, i, &due, expect, &mut tx_ids) {
                 fail!(si, format!("c22:subscription:{kind}:{}", st_sub_kind(steps, i)), "after step {} ({}): subscription {}: {e}", si + 1, st["cmd"], i + 1);
             }
         }
     }
-    // the connection is still alive
-    match c.call(&cmd(&["PING"])).await {
-        Ok(f) if is_error(&f).is_none() => {}
-        Ok(f) => {
-            let _ = db.shutdown().await;
-            return Outcome { problem: Some(("c22:ping".into(), format!("PING answered {}", show(&f)), steps.len())), steps_done: steps.len() };
-        }
-        Err(e) => {
-            let _ = db.shutdown().await;
-            return Outcome { problem: Some(("c22:connection-lost:PING".into(), e, steps.len())), steps_done: steps.len() };
+    // every connection is still alive
+    for (cn, c) in clients.iter_mut() {
+        match c.call(&cmd(&["PING"])).await {
+            Ok(f) if is_error(&f).is_none() => {}
+            Ok(f) => {
+                let _ = db.shutdown().await;
+                return Outcome { problem: Some(("c22:ping".into(), format!("PING on connection {cn} answered {}", show(&f)), steps.len())), steps_done: steps.len() };
+            }
+            Err(e) => {
+                let _ = db.shutdown().await;
+                return Outcome { problem: Some(("c22:connection-lost:PING".into(), format!("connection {cn}: {e}"), steps.len())), steps_done: steps.len() };
+            }
         }
     }
-    drop(c);
+    drop(clients);
     let _ = db.shutdown().await;
     Outcome { problem: None, steps_done: steps.len() }
 }
@@ -1015,16 +1073,21 @@ fn st_sub_kind(steps: &[Value], i: usize) -> String {
     steps.iter().filter(|s| matches!(s["cmd"].as_str(), Some("ESUB") | Some("EPSUB"))).nth(i).map(|s| s["cmd"].as_str().unwrap().to_string()).unwrap_or_default()
 }
 
-fn drain_pushes(c: &mut Client, w: &mut World) {
-    while let Ok(p) = c.pushes.try_recv() {
-        if p.first().and_then(text).as_deref() == Some("message") && p.len() == 4 {
-            if let Some(id) = text(&p[1]).and_then(|t| Uuid::parse_str(&t).ok()) {
-                let cursor = num(&p[2]).unwrap_or(-1);
-                if let Some(s) = w.subs.iter_mut().find(|s| s.id == id) {
-                    if std::env::var("VERIF_TRACE").is_ok() {
-                        eprintln!("push sub={id} cursor={cursor} p={:?} q={:?}", field(&p[3], "partition_id").and_then(num), field(&p[3], "partition_sequence").and_then(num));
+fn drain_pushes(clients: &mut BTreeMap<u64, Client>, w: &mut World) {
+    for (cn, c) in clients.iter_mut() {
+        while let Ok(p) = c.pushes.try_recv() {
+            if p.first().and_then(text).as_deref() == Some("message") && p.len() == 4 {
+                if let Some(id) = text(&p[1]).and_then(|t| Uuid::parse_str(&t).ok()) {
+                    let cursor = num(&p[2]).unwrap_or(-1);
+                    if let Some(s) = w.subs.iter_mut().find(|s| s.id == id) {
+                        if std::env::var("VERIF_TRACE").is_ok() {
+                            eprintln!("push conn={cn} sub={id} cursor={cursor} p={:?} q={:?}", field(&p[3], "partition_id").and_then(num), field(&p[3], "partition_sequence").and_then(num));
+                        }
+                        if s.conn != *cn {
+                            s.wrong_conn = Some(*cn);
+                        }
+                        s.received.push((cursor, p[3].clone()));
                     }
-                    s.received.push((cursor, p[3].clone()));
                 }
             }
         }
